@@ -126,14 +126,17 @@ CLAIMED = {
         "swallowed (Proofs/FaultSurface.v): whenever a Result-returning call returns Ok, the part of the sink's plan it "
         "consumed contains no failure -- an injected failure makes the very call during which it happens return an error, "
         "in every state, for all arguments, compressors and checksums; a program in which no call reports an error saw "
-        "only short writes (for which the chunk-independence theorems of C09 and C13_old_bytes_preserved apply).  "
+        "only short writes.  ERROR OR IDENTICAL (C11_error_or_identical, Proofs/OkSim.v, a one-sided simulation along the all-Ok "
+        "paths of the whole writer): for every plan of the sink (short writes and failures anywhere, any number) and every "
+        "program of Result-returning calls, fresh or appended writer: either some call reports an error, or every call "
+        "returned exactly what it returns over a sink that never fails -- including the archive bytes handed back by "
+        "finish() -- and the sink holds the same bytes.  "
         "READER side: the entry "
         "reader stack of a stored entry (plain or ZipCrypto) over a source with an ARBITRARY plan of short reads and "
         "failures: under every schedule of buffer sizes the bytes delivered before the first error are a prefix of the true "
         "content, a read reaching a clean end of file delivered exactly the true content, and a corrupted entry never "
         "completes -- an I/O failure surfaces as an error or as the failure-free result, never as other bytes.  For the "
-        "writer the remaining half of 'error or identical result' (a run that saw only short writes produces the bytes of the "
-        "unchunked run, for whole programs) is carried by the correspondence: for 19 (thorough 160+) writer scenarios mixing all entry kinds, "
+        "writer the tie of this model to the crate is the correspondence: for 19 (thorough 160+) writer scenarios mixing all entry kinds, "
         "methods, extra data, alignment, ZipCrypto, raw copy, append, finish/drop and calls after finish, the k-th sink "
         "call fails for EVERY k below the failure-free call count and the crate's per-call results and final sink bytes "
         "equal the model's under the same plan (incl. the encoders' drop-time retry); reader scenarios (all methods, ZIP64, "
